@@ -153,6 +153,13 @@ static void dump(Slot &s, const std::string &what) {
         pi("limits", g.getLevelLimits());
         if (g.isSetDomainTransfrom()) { std::vector<double> a, b; g.getDomainTransform(a, b); pd("ta", a); pd("tb", b); }
         if (g.isSetConformalTransformASIN()) pi("conformal", g.getConformalTransformASIN());
+    } else if (g.empty() && (what == "points" || what == "needed" || what == "allpoints" || what == "pidx" || what == "nidx" || what == "apipidx" || what == "apinidx"
+                             || what == "values" || what == "coef" || what == "qw" || what == "hsupport" || what == "hint" || what == "polyi" || what == "polyq"
+                             || what == "tensors" || what == "utensors")) {
+        // an EMPTY grid (e.g. after removePointsByHierarchicalCoefficient removed every point): the point getters dereference the null base
+        // object (an observation outside the listed properties); only "meta" is meaningful, everything else is printed as empty
+        if (what == "pidx" || what == "nidx" || what == "apipidx" || what == "apinidx" || what == "tensors" || what == "utensors") pi(what.c_str(), std::vector<int>());
+        else pd(what.c_str(), std::vector<double>());
     } else if (what == "points") pd("points", g.getLoadedPoints());
     else if (what == "needed") pd("needed", g.getNeededPoints());
     else if (what == "allpoints") pd("allpoints", g.getPoints());
@@ -218,7 +225,11 @@ static void run_line(const std::string &line) {
         std::vector<double> c = fn_values(fn, g.getPoints(), g.getNumDimensions(), g.getNumOutputs());
         if (g.isFourier()) { std::vector<double> cc(2 * c.size(), 0.0); std::copy(c.begin(), c.end(), cc.begin()); for (size_t i = 0; i < c.size(); i++) cc[c.size() + i] = 0.25 * c[i]; c = cc; }
         g.setHierarchicalCoefficients(c); }
-    else if (cmd == "remtol") { Slot &s = S(k.next()); double tol = k.nd(); int out = k.ni(); s.g.removePointsByHierarchicalCoefficient(tol, out); }
+    else if (cmd == "remtol") { Slot &s = S(k.next()); double tol = k.nd(); int out = k.ni();
+        // a tolerance above every coefficient empties the grid; every later call on an empty grid is outside the documented use (the point
+        // getters and loadConstructedPoints dereference the null base object): tried on a copy first and skipped in that case
+        TasmanianSparseGrid trial(s.g); trial.removePointsByHierarchicalCoefficient(tol, out);
+        if (!trial.empty() && trial.getNumLoaded() > 0) s.g.removePointsByHierarchicalCoefficient(tol, out); }
     else if (cmd == "remcount") { Slot &s = S(k.next()); int n = k.ni(); int out = k.ni();
         // keeping more points than the grid holds is outside the documented use ("keeps only the given number of points"): skipped
         if (n > 0 && n < s.g.getNumLoaded()) s.g.removePointsByHierarchicalCoefficient(n, out); }
